@@ -73,10 +73,18 @@ Theorem shape_conformance : forall e1 e2,
        0 <= r1 < a_elems (new_arr e1) /\ 0 <= r2 < a_elems (new_arr e2) /\ 0 <= w < a_elems (new_arr e2)) /\
   (* matrix product: both two-dimensional with equal inner extents, else wrong_array_size *)
   (can_mult a1 a2 = true <-> exists m k n, e1 = [m; k] /\ e2 = [k; n]) /\
-  (arr_matmul a1 a2 = Exc WrongArraySize <-> ~ exists m k n, e1 = [m; k] /\ e2 = [k; n]) /\
-  (forall m k n, e1 = [m; k] -> e2 = [k; n] -> 0 < m -> 0 < k -> 0 < n ->
-     m * k < two32 -> k * n < two32 -> m * n < two32 ->
-     exists acc, arr_matmul a1 a2 = Ok acc /\ acc_shape acc = [m; n] /\
+  ((~ exists m k n, e1 = [m; k] /\ e2 = [k; n]) -> arr_matmul a1 a2 = Exc WrongArraySize) /\
+  (* conformable: wrong_array_size exactly when the m * n cells of the result do not fit unsigned
+     int (fix 1f9996a), otherwise a result *)
+  (forall m k n, e1 = [m; k] -> e2 = [k; n] -> 0 < m -> 0 < n ->
+     (arr_matmul a1 a2 = Exc WrongArraySize <-> two32 <= m * n) /\
+     (m * n < two32 -> exists acc, arr_matmul a1 a2 = Ok acc)) /\
+  (* whenever the product of two matrices is produced, the result has m * n < 2^32 cells and
+     every element read or written lies inside its value[] -- no hypothesis on m * n *)
+  (forall m k n acc, e1 = [m; k] -> e2 = [k; n] -> 0 < m -> 0 < k -> 0 < n ->
+     m * k < two32 -> k * n < two32 ->
+     arr_matmul a1 a2 = Ok acc ->
+     acc_shape acc = [m; n] /\ m * n < two32 /\ a_elems (new_arr [m; n]) = m * n /\
        forall w r1 r2, In (w, r1, r2) (acc_reads acc) ->
          0 <= r1 < a_elems (new_arr e1) /\ 0 <= r2 < a_elems (new_arr e2) /\
          0 <= w < a_elems (new_arr [m; n])) /\
@@ -98,21 +106,37 @@ Proof.
     intros w r1 r2 Hin. apply in_map_iff in Hin. destruct Hin as [e [He Hin]].
     inversion He; subst. apply in_upto in Hin. lia. }
   split; [exact CM|]. split.
-  { unfold arr_matmul. destruct (can_mult (Some (new_arr e1)) (Some (new_arr e2))) eqn:E; cbn.
-    - split; [discriminate | intros Hne; exfalso; apply Hne; apply CM; reflexivity].
-    - split; [intros _ Hex; apply CM in Hex; congruence | reflexivity]. }
+  { intros Hne. unfold arr_matmul.
+    destruct (can_mult (Some (new_arr e1)) (Some (new_arr e2))) eqn:E; cbn; [|reflexivity].
+    exfalso. apply Hne. apply CM. reflexivity. }
   split.
-  { intros m k n -> -> Hm Hk Hn B1 B2 B3. unfold arr_matmul.
+  { intros m k n -> -> Hm Hn. unfold arr_matmul.
     assert (E : can_mult (Some (new_arr [m; k])) (Some (new_arr [k; n])) = true)
       by (apply can_mult_spec; eauto).
     rewrite E. cbn [negb]. rewrite !dv_elems_new. cbn [nth].
-    eexists. split; [reflexivity|]. cbn [acc_shape acc_reads]. split; [reflexivity|].
+    pose proof (dim_fits_spec [m; n] ltac:(repeat constructor; lia)) as F. cbn [prodZ] in F.
+    destruct (dim_fits [m; n]); cbn [negb].
+    - split; [split; [discriminate | intros Hb; assert (m * (n * 1) < two32) by (apply F; reflexivity); lia]
+             | intros _; eauto].
+    - split; [split; [intros _ | reflexivity] | intros Hb; assert (false = true) by (apply F; lia); discriminate].
+      destruct (Z_lt_le_dec (m * n) two32) as [Hlt|Hge]; [|exact Hge].
+      assert (false = true) by (apply F; lia). discriminate. }
+  split.
+  { intros m k n acc -> -> Hm Hk Hn B1 B2 H. unfold arr_matmul in H.
+    assert (E : can_mult (Some (new_arr [m; k])) (Some (new_arr [k; n])) = true)
+      by (apply can_mult_spec; eauto).
+    rewrite E in H. cbn [negb] in H. rewrite !dv_elems_new in H. cbn [nth] in H.
+    pose proof (dim_fits_spec [m; n] ltac:(repeat constructor; lia)) as F. cbn [prodZ] in F.
+    destruct (dim_fits [m; n]); cbn [negb] in H; [|discriminate].
+    assert (B3 : m * n < two32) by (assert (m * (n * 1) < two32) by (apply F; reflexivity); lia).
+    inversion H; subst acc; clear H. cbn [acc_shape acc_reads]. split; [reflexivity|].
+    split; [exact B3|].
     assert (El : forall x y, 0 < x -> 0 < y -> x * y < two32 -> a_elems (new_arr [x; y]) = x * y).
     { intros x y Hx Hy Hb. rewrite new_arr_elems, dim_mult_exact; cbn [snd prodZ].
       - lia.
       - repeat constructor; lia.
       - lia. }
-    rewrite !El by assumption.
+    rewrite !El by assumption. split; [reflexivity|].
     intros w r1 r2 Hin. unfold matmul_reads in Hin.
     apply in_flat_map in Hin. destruct Hin as [i [Hi Hin]].
     apply in_flat_map in Hin. destruct Hin as [j [Hj Hin]].
@@ -155,8 +179,21 @@ Proof.
   - reflexivity.
   - intros m k n acc H. unfold arr_matmul in H.
     destruct (can_mult (Some (new_arr [m; k])) (Some (new_arr [k; n]))); cbn [negb] in H; [|discriminate].
-    rewrite !dv_elems_new in H. cbn [nth] in H. inversion H; subst. reflexivity.
+    rewrite !dv_elems_new in H. cbn [nth] in H.
+    destruct (dim_fits [m; n]); cbn [negb] in H; [|discriminate]. inversion H; subst. reflexivity.
   - intros idx. cbn [arr_copy a_dv]. rewrite dim_copy_id. reflexivity.
+Qed.
+
+(* regression (finding array_deref:extent-product-overflow, matrix-product variant, fixed by
+   1f9996a): the 65536 x 65536 result of [65536 x 1] * [1 x 65536] got 0 cells and no value[],
+   the handler then stored through it *)
+Theorem matmul_overflow_regression :
+  arr_matmul (Some (new_arr [65536; 1])) (Some (new_arr [1; 65536])) = Exc WrongArraySize /\
+  arr_matmul (Some (new_arr [65537; 2])) (Some (new_arr [2; 65537])) = Exc WrongArraySize /\
+  arr_matmul (Some (new_arr [3; 1])) (Some (new_arr [1; 1431655766])) = Exc WrongArraySize /\
+  (exists acc, arr_matmul (Some (new_arr [3; 1])) (Some (new_arr [1; 4])) = Ok acc /\ acc_shape acc = [3; 4]).
+Proof.
+  repeat split; try (vm_compute; reflexivity). eexists. split; vm_compute; reflexivity.
 Qed.
 
 Example shape_conformance_example :
